@@ -32,6 +32,7 @@ OBLIGATIONS = {
     "digest_ge_n": "a digest >= n was signed",
     "der_pad": "an r needed a DER sign pad byte (top bit set)",
     "short_r": "an r shorter than 32 bytes was produced on secp256k1",
+    "hashed_length_at_chunk_boundary": "a message whose hashed length is at / next to a multiple of a common chunk size (up to 2 MiB)",
     "msg_ends_with_flag": "a plain-mode message whose last bytes already equal the sighash suffix",
     "flag_preimage_mode": "the flag byte was checked in preimage mode",
     "s_boundary": "a (d,z,k) whose un-negated s is n//2, n//2+1, 2^255 or a neighbour was signed on secp256k1",
@@ -145,7 +146,7 @@ def chk_bytes(case):
     C = _curve(case)
     key = bytes.fromhex(case["key"])
     d = int.from_bytes(key, "big")
-    msg = bytes.fromhex(case["msg"])
+    msg = filler(*case["msg_fill"]) if "msg_fill" in case else bytes.fromhex(case["msg"])
     flag = case["flag"]
     pre = case["preimage"]
     if pre:
@@ -341,6 +342,8 @@ def jobs(tier, seed):
         js.append({"name": f"secp/sign/{sh}", "part": "real-sign", "shard": [sh, nsh], "weight": 3})
     js.append({"name": "secp/bytes", "part": "real-bytes", "weight": 6})
     js.append({"name": "secp/reuse", "part": "real-reuse", "weight": 10})
+    for sh in range(4):
+        js.append({"name": f"secp/longmsg/{sh}", "part": "real-longmsg", "shard": [sh, 4], "weight": 6})
     from vf.runner import seq_jobs
     js += seq_jobs(4, curve=list(smallcurve.TABLE[0]), weight=4)
     for i in range(6):
@@ -482,6 +485,21 @@ def run_job(job):
                             "preimage": True, "draws": [77]}, chk_bytes)
         acc.evaluations += 1
         acc.nontrivial += 1
+    elif part == "real-longmsg":
+        # message lengths that make the HASHED string (msg || 4-byte flag, or the pre-image itself) end exactly at, one before
+        # and one after a multiple of the usual chunk sizes (SHA-256 block/padding, 4 KiB, 8 KiB, 64 KiB, 1 MiB, 2 MiB)
+        from vf.classes import CHUNK_LENGTHS
+        lens = sorted({x for L in CHUNK_LENGTHS for x in (L - 5, L - 4, L - 3, L - 1, L, L + 1) if x >= 0})
+        sh, nsh = job["shard"]
+        for i, (ln, pre) in enumerate(itertools.product(lens, (False, True))):
+            if i % nsh != sh:
+                continue
+            acc.evaluations += 1
+            acc.nontrivial += 1
+            acc.ob("hashed_length_at_chunk_boundary")
+            acc.check("bytes", {"key": (2).to_bytes(32, "big").hex(), "msg_fill": [seed, f"c01-long{ln}", ln], "flag": 1, "preimage": pre,
+                                "draws": [4000 + i]}, chk_bytes)
+        acc.sample({"message_lengths": lens})
     elif part == "real-reuse":
         # (e) no nonce reuse: distinct scripted draws, signatures differing in key or digest must not share r
         n = S.n
